@@ -239,6 +239,13 @@ def dom_cases():
             out.append(("Cog18 geometry=%d t=%r (|t| > tau=1.25)" % (g, t), (lambda g=g: Cog18(geometry=g)), r, t))
         for t in (1 / 0.3, 5.0, 40.0):
             out.append(("Cog20 geometry=%d t=%r (t >= 1/a, a=0.3)" % (g, t), (lambda g=g: Cog20(geometry=g)), r, t))
+    # negative radii (ghost cells left of the origin, a rounding error in a mesh generator) where the library has a guard
+    # (Sedov's tabulated profile starts at r = 0; Blake above); valid points in the same request are not judged.  The
+    # closed-form solvers (Noh, Noh2, Coggeshall) document no restriction on r and return the formula's value: not judged.
+    rneg = np.array([-0.5, -1e-12, 0.3, 0.8])
+    for g in (1, 2, 3):
+        out.append(("Sedov geometry=%d negative radius among valid points" % g, (lambda g=g: Sedov(geometry=g)), rneg, 1.0, [0, 1]))
+        out.append(("Sedov geometry=%d omega=1 negative radius" % g, (lambda g=g: Sedov(geometry=g, omega=1.0)), np.array([-0.2, -0.01]), 0.5))
     out.append(("Cog6 b=0.5 tau=2 t=3 (|t| > tau)", lambda: Cog6(b=0.5, tau=2.0), r, 3.0))
     out.append(("Cog18 alpha=-1.5 beta=2 tau=0.7 t=1 (|t| > tau)", lambda: Cog18(alpha=-1.5, beta=2.0, tau=0.7), r, 1.0))
     return out
@@ -511,7 +518,7 @@ UNITS = [
     Unit("kenamond2.times", gen_k2times, run_k2times, quick=72, thorough=720, min_nontrivial=60),
     Unit("blake.nonpd", gen_blake, run_blake, quick=15 * len(NONPD), thorough=15 * len(NONPD) * 6, min_nontrivial=100),
     Unit("restriction", gen_restr, run_restr, quick=(len(FLAT) + 12) * 2, thorough=(len(FLAT) + 12) * 12, min_nontrivial=len(FLAT)),
-    Unit("domain", gen_dom, run_dom, quick=96, thorough=96, min_nontrivial=70),
+    Unit("domain", gen_dom, run_dom, quick=96, thorough=96, min_nontrivial=80),
     Unit("finite", gen_fin, run_fin, quick=360, thorough=3600, min_nontrivial=250),
     Unit("series", gen_series, run_series, quick=90, thorough=1800, min_nontrivial=60),
 ]
